@@ -29,7 +29,7 @@ def scenario_set(thorough):
 
 
 CRASH_MODEL_QUICK = ["task-chain", "task-fails", "par-pass"]
-CRASH_MODEL_THOROUGH = CRASH_MODEL_QUICK + ["wait-chain", "task-timeout", "task-retry", "map-pass", "pass-chain", "task-task", "task-catch"]
+CRASH_MODEL_THOROUGH = CRASH_MODEL_QUICK + ["wait-chain", "task-timeout", "task-retry", "map-pass", "pass-chain", "task-task", "task-catch", "par-task-end"]
 
 
 def crash_model_stage(thorough, base, work, add_model_run):
